@@ -141,6 +141,29 @@ def calendar_check(out: Outcome, drv):
     out.extra["calendar_exhaustive_1970_2100"] = out.tier == "thorough"
 
 
+LONG_N = [4099, 8195, 16390, 20011]
+
+
+def tile_case(case, length):
+    """The short case repeated cyclically up to `length` positions (None when its series are too short or of unequal lengths)."""
+    keys = fx.SERIES_KEYS[case["fn"]]
+    n = len(case[keys[0]])
+    if n < 4 or any(len(case[k]) != n for k in keys):
+        return None
+    c = dict(case)
+    for k in keys:
+        v = case[k]
+        if k == "t":
+            if any(x is None for x in v) or any(b <= a for a, b in zip(v, v[1:])):
+                return None
+            period = (v[-1] - v[0]) + (v[1] - v[0])
+            c[k] = [v[i % n] + (i // n) * period for i in range(length)]
+        else:
+            c[k] = [v[i % n] for i in range(length)]
+    c.pop("decimal_f32", None)
+    return fx.refresh(c)
+
+
 def run(out: Outcome, drv, prop):
     fns, nq, nt = PLAN[prop]
     n = nq if out.tier == "quick" else nt
@@ -179,6 +202,21 @@ def run(out: Outcome, drv, prop):
                     items.append((c, ca, rng.choice(["dt64ns", "dtindex", "stamps", "series_naive", "epoch_float", "dtindex_us", "series_ms"]), sk))
         out.extra["subsecond_cases"] = len(items)
         fx.run_cases(out, drv, items, verdict, WHAT[prop])
+    # long series ("for any length"): an implementation that works in blocks or chunks differs from the whole-array one only
+    # past its block size, at the seams.  A short generated case (every position near a threshold) is repeated cyclically up to
+    # the long length, the time axis continued with the same steps; lengths just past 2^12 .. 2^16
+    rng = gen.rng_for(out.seed, prop, "long")
+    longs = []
+    for fn in fns:
+        # (the trailing-window model of attenuated_signal_test is quadratic in the series length: shorter series there)
+        for ln in ([515, 1030] if fn == "atten" else LONG_N if out.tier == "quick" else LONG_N + [33000, 66000]):
+            for _try in range(20):
+                c = tile_case(gen.GENERATORS[fn](rng, 9) if fn != "flat" else gen.gen_flat(rng, 9), ln + rng.randrange(0, 7))
+                if c is not None:
+                    longs.append((c, *fx.pick_carriers(c, rng)))
+                    break
+    out.extra["long_series_cases"] = len(longs)
+    fx.run_cases(out, drv, longs, verdict, WHAT[prop])
     for fn in fns:
         items = fx.random_items(out.seed, prop, fn, n, 12 if out.tier == "quick" else 20)
         # in chunks, so a systematic failure stops early
